@@ -37,3 +37,18 @@ Theorem C04_engine_schedule_independent_partial : forall data cs1 cs2 b1 b2 t1 t
    results_bytes (fst r1) = results_bytes (fst r2) /\ snd r1 = snd r2).
 Proof. exact engine_schedule_independent. Qed.
 Print Assumptions C04_engine_schedule_independent_partial.
+
+(* ---- full statement on the engine model for complete standard streams (proofs/EngineTop.v): any two
+   schedules, buffer sizes, terminals and sufficient Read-size lists give the same bytes, io.EOF in
+   both runs and the same consumption. *)
+From Verif Require Import EngineSafetyBuf EngineCompleteSpecC EngineCompleteSpecG EngineTop.
+Theorem C04_engine_schedule_independent : forall data cs1 cs2 b1 b2 t1 t2 reads1 reads2,
+  bytes_ok data -> cut_of cs1 data -> cut_of cs2 data ->
+  in_model_bounds b1 cs1 -> in_model_bounds b2 cs2 ->
+  status (Inflate.inflate [] data) = Done -> std_stream data ->
+  enough_reads data reads1 -> enough_reads data reads2 ->
+  results_bytes (fst (erun_ext b1 cs1 t1 reads1)) = results_bytes (fst (erun_ext b2 cs2 t2 reads2)) /\
+  snd (erun_ext b1 cs1 t1 reads1) = snd (erun_ext b2 cs2 t2 reads2) /\
+  In REOF (map snd (fst (erun_ext b1 cs1 t1 reads1))) /\ In REOF (map snd (fst (erun_ext b2 cs2 t2 reads2))).
+Proof. exact engine_schedule_independent_full. Qed.
+Print Assumptions C04_engine_schedule_independent.
